@@ -169,6 +169,8 @@ type tpWorld struct {
 //	               trip): a pending flow reads back as {Ticket, 0, []byte{}}
 //	nil-for-empty  the reverse: what comes out has nil for every empty field
 //	copy-on-write  Insert/Update store a deep copy: the caller's StoreData and its slices are not the stored ones
+//	nil-nil-miss   a miss is reported as (nil, nil), not as an error (a key-value client whose Get returns "no value,
+//	               no error"): both HTTP handlers of the library test `err != nil || sd == nil`, i.e. allow for it
 type tpWrapStore struct {
 	w     *tpWorld
 	inner *tp.MemoryStore
@@ -177,7 +179,7 @@ type tpWrapStore struct {
 
 var _ tp.Store = (*tpWrapStore)(nil)
 
-var tpStoreReprs = []string{"memory", "memory", "memory", "memory", "memory", "memory", "serialising", "nil-for-empty", "copy-on-write"}
+var tpStoreReprs = []string{"memory", "memory", "memory", "memory", "memory", "memory", "serialising", "nil-for-empty", "copy-on-write", "nil-nil-miss"}
 
 // what the store keeps of a StoreData handed to Insert/Update
 func (s *tpWrapStore) in(sd *tp.StoreData) *tp.StoreData {
@@ -255,6 +257,9 @@ func (s *tpWrapStore) GetByPollSecret(ctx context.Context, x string) (*tp.StoreD
 	th := s.park(ctx, "get")
 	sd, err := s.inner.GetByPollSecret(ctx, x)
 	sd = s.out(sd)
+	if s.repr == "nil-nil-miss" && err != nil {
+		sd, err = nil, nil
+	}
 	s.log(th, "get:poll:%s:%s", s.w.sref(x), hitmiss(err == nil && sd != nil, "hit", "miss"))
 	return sd, err
 }
@@ -263,6 +268,9 @@ func (s *tpWrapStore) GetByUserSecret(ctx context.Context, x string) (*tp.StoreD
 	th := s.park(ctx, "get")
 	sd, err := s.inner.GetByUserSecret(ctx, x)
 	sd = s.out(sd)
+	if s.repr == "nil-nil-miss" && err != nil {
+		sd, err = nil, nil
+	}
 	s.log(th, "get:user:%s:%s", s.w.sref(x), hitmiss(err == nil && sd != nil, "hit", "miss"))
 	return sd, err
 }
